@@ -62,11 +62,13 @@ import (
 	"github.com/dfklegend/cell2/pomelonet/common/conn/message"
 	"github.com/dfklegend/cell2/utils/event"
 	"github.com/dfklegend/cell2/utils/timer"
+	"github.com/dfklegend/cell2/utils/waterfall"
 )
 
 // ---------------------------------------------------------------- monitor
 
-var kindOrder = []string{"post", "tmr", "tz", "lev", "dlev", "gev", "req", "mute", "raw", "ntf", "slow", "sib", "rsp", "tmo", "sfl", "sadd", "smsg", "srem"}
+var kindOrder = []string{"post", "tmr", "tz", "lev", "dlev", "gev", "req", "mute", "raw", "ntf", "slow", "sib", "rsp", "tmo", "sfl", "sadd", "smsg", "srem",
+	"kick", "sio", "wstep", "wfin", "boom"}
 
 type kstat struct {
 	n     int
@@ -85,6 +87,8 @@ type mon struct {
 	stats  map[string]*kstat
 	dwell  string
 	tick   uint64
+	latest *hsvc // newest incarnation of the actor (set by the producer)
+	born   int   // how often the producer ran
 }
 
 func newMon() *mon {
@@ -106,7 +110,14 @@ var spinSink uint64
 
 // pieces that run synchronously inside another piece by design: the callback of a request that could
 // not be serialised (inside Request), a listener of an event centre in direct mode (inside Publish)
-var nestedByDesign = map[string]bool{"sfl": true, "dlev": true}
+// likewise the kick handler (called by ClientSessions.Kick inside the piece that kicks) and every use the
+// framework makes of the connection object on the service's behalf (`sio`: id assignment in AddSession, id
+// reads of the posted message / remove closures, Close of a kick)
+var nestedByDesign = map[string]bool{"sfl": true, "dlev": true, "kick": true, "sio": true}
+
+// kinds whose number of entries is an implementation detail (how often the framework reads the id of a
+// connection): only the goroutines and the overlap are observed
+var uncounted = map[string]bool{"sio": true}
 
 // enter records one entry into the service's code; the returned function marks the exit.
 func (m *mon) enter(kind string) func() {
@@ -157,6 +168,9 @@ func (m *mon) enter(kind string) func() {
 	if mode == "mix" {
 		mode = []string{"sleep", "yield", "spin", "none"}[m.tick%4]
 	}
+	if kind == "sio" {
+		mode = "none" // an accessor of the connection object, not a handler: recorded, no dwelling
+	}
 	m.mu.Unlock()
 	if tell != "" {
 		m.early("ok " + m.label + ":" + tell)
@@ -204,6 +218,9 @@ func (m *mon) report(wild ...string) string {
 			gs = append(gs, strconv.Itoa(g))
 		}
 		cnt := strconv.Itoa(st.n)
+		if uncounted[k] {
+			cnt = "~"
+		}
 		for _, wk := range wild {
 			if wk == k {
 				cnt = "~" // how many of these ran is legitimately up to the scheduler
@@ -247,6 +264,23 @@ func (s *hsvc) ReceiveRequest(ctx actor.Context, request *messages.ServiceReques
 		v = m.I
 	}
 	s.Response(request, 0, "", &messages.TestHello{I: v + 1})
+}
+
+// impls.IKickHandler: called by ClientSessions.Kick, inside the piece of service code that kicks
+func (s *hsvc) HandleKick(n *ns.NodeService, sessions *impls.ClientSessions, netId uint32) {
+	defer s.m.enter("kick")()
+	sessions.DoKick(netId)
+}
+
+// boom: a message whose handling panics (the supervisor then restarts the actor: the producer runs again)
+type boom struct{}
+
+func (s *hsvc) Receive(ctx actor.Context) {
+	if _, ok := ctx.Message().(*boom); ok {
+		defer s.m.enter("boom")()
+		panic("c04: boom")
+	}
+	s.NodeService.Receive(ctx)
 }
 
 // client.ISessionsHandler
@@ -329,18 +363,36 @@ func register() {
 }
 
 // scripted connection: what pomelonet's session hands to IClientSessionImpl
+// Whatever the framework does with the connection object it does for the owner service (AddSession assigns
+// the id, the posted message / remove closures read it, a kick closes it): recorded as entry kind `sio`.
 type fakeSession struct {
 	id     uint32
-	closed bool
+	closed uint32
+	m      *mon
 }
 
-func (f *fakeSession) Reserve()                                           {}
-func (f *fakeSession) GetId() uint32                                      { return atomic.LoadUint32(&f.id) }
-func (f *fakeSession) SetId(v uint32)                                     { atomic.StoreUint32(&f.id, v) }
-func (f *fakeSession) Push(route string, v interface{}) error             { return nil }
-func (f *fakeSession) ResponseMID(mid uint, v interface{}, e error) error { return nil }
-func (f *fakeSession) Close()                                             { f.closed = true }
-func (f *fakeSession) IsClosed() bool                                     { return f.closed }
+func (f *fakeSession) Reserve() {}
+func (f *fakeSession) GetId() uint32 {
+	defer f.m.enter("sio")()
+	return atomic.LoadUint32(&f.id)
+}
+func (f *fakeSession) SetId(v uint32) {
+	defer f.m.enter("sio")()
+	atomic.StoreUint32(&f.id, v)
+}
+func (f *fakeSession) Push(route string, v interface{}) error {
+	defer f.m.enter("sio")()
+	return nil
+}
+func (f *fakeSession) ResponseMID(mid uint, v interface{}, e error) error {
+	defer f.m.enter("sio")()
+	return nil
+}
+func (f *fakeSession) Close() {
+	defer f.m.enter("sio")()
+	atomic.StoreUint32(&f.closed, 1)
+}
+func (f *fakeSession) IsClosed() bool { return atomic.LoadUint32(&f.closed) == 1 }
 
 type plain struct{ X int } // not a proto.Message: remote.Serialize fails
 
@@ -354,6 +406,7 @@ type world struct {
 	u, v   *hsvc // two services created with the EMPTY run-service name
 	pa     *actor.PID
 	pb     *actor.PID
+	crashed bool // B was restarted by its supervisor in this case (at most once per case)
 	direct bool // event centres of this case are in direct mode (SetLocalUseChan(false))
 	open   []*fakeSession
 	sibs   []*actor.PID // 12 more actors spawned from A's props: same dispatcher, same run service
@@ -378,6 +431,10 @@ func (w *world) spawn(tag string, nsib int, unnamed ...bool) (*hsvc, *actor.PID,
 		if s == nil {
 			s = x
 		}
+		m.mu.Lock()
+		m.latest = x // a supervisor restart runs the producer again: the newest incarnation
+		m.born++
+		m.mu.Unlock()
 		return x
 	}, rsName, "c04.remote")
 	pid, err := w.sys.Root.SpawnNamed(props, name)
@@ -396,6 +453,7 @@ func (w *world) spawn(tag string, nsib int, unnamed ...bool) (*hsvc, *actor.PID,
 	synctest.Wait()
 	s.sessions = impls.NewClientSessions(name)
 	s.sessions.SetHandler(s)
+	s.sessions.SetKickHandler(s)
 	s.simpl = pomelo.NewSessionsImpl(s.GetRunService().GetScheduler(), s.sessions)
 	return s, pid, sibs
 }
@@ -408,6 +466,7 @@ func (w *world) reset() string {
 	w.v, _, _ = w.spawn("v", 0, true)
 	w.a.peer, w.b.peer = w.pb, w.pa
 	w.direct = false
+	w.crashed = false
 	w.lev = fmt.Sprintf("c04.lev%d", w.nCase)
 	w.gev = fmt.Sprintf("c04.gev%d", w.nCase)
 	for _, s := range []*hsvc{w.a, w.b} {
@@ -608,7 +667,7 @@ func (w *world) burst(b burst) string {
 	for i := 0; i < b.ses; i++ {
 		i := i
 		go func() {
-			fs := &fakeSession{}
+			fs := &fakeSession{m: w.a.m}
 			w.a.simpl.OnSessionCreate(fs)
 			// a client speaks only after its handshake was answered: by then the service has
 			// registered the session (a message for an unknown session is dropped by ClientSessions)
@@ -669,6 +728,32 @@ func (w *world) exec(op string) string {
 			return "bad-op"
 		}
 		return w.selfreq(how == "helper", n)
+	case "wfall":
+		n, steps, fail := hx.KVInt(ws, "n"), hx.KVInt(ws, "steps"), hx.KVInt(ws, "fail")
+		by, _ := hx.KV(ws, "by")
+		if len(ws) != 5 || !allNum(ws[1:], "n", "steps", "fail") || n < 1 || n > 40 || steps < 1 || steps > 4 || fail > steps ||
+			(by != "loop" && by != "helper") || w.a == nil {
+			return "bad-op"
+		}
+		return w.wfall(n, steps, fail, by == "helper")
+	case "talk":
+		n, kick := hx.KVInt(ws, "n"), hx.KVInt(ws, "kick")
+		if len(ws) != 3 || !allNum(ws[1:], "n", "kick") || n < 1 || n > 3000 || kick > 1 || w.a == nil {
+			return "bad-op"
+		}
+		return w.talk(n, kick == 1)
+	case "tcancel":
+		n := hx.KVInt(ws, "n")
+		if len(ws) != 2 || !allNum(ws[1:], "n") || n < 1 || n > 50 || w.a == nil {
+			return "bad-op"
+		}
+		return w.tcancel(n)
+	case "crash":
+		q, post, tmr := hx.KVInt(ws, "q"), hx.KVInt(ws, "post"), hx.KVInt(ws, "tmr")
+		if len(ws) != 4 || !allNum(ws[1:], "q", "post", "tmr") || q > 40 || post > 100 || tmr > 20 || w.a == nil || w.crashed {
+			return "bad-op"
+		}
+		return w.crash(q, post, tmr)
 	case "evmode":
 		v, ok := hx.KV(ws, "chan")
 		if len(ws) != 2 || !ok || (v != "0" && v != "1") || w.a == nil {
@@ -722,7 +807,7 @@ func (w *world) anon(p, post, k, m int, busy bool) string {
 		for i := 0; i < k; i++ {
 			i := i
 			go func() {
-				fs := &fakeSession{}
+				fs := &fakeSession{m: s.m}
 				s.simpl.OnSessionCreate(fs)
 				time.Sleep(time.Millisecond)
 				for j := 0; j < m; j++ {
@@ -777,6 +862,145 @@ func (w *world) selfreq(helper bool, n int) string {
 	return "ok A:" + a.m.report() + " B:" + w.b.m.report()
 }
 
+// wfall: A starts n waterfall.Sche chains on its scheduler (how gate login / scene enter chain their
+// asynchronous steps).  Every step completes through the chain's callback, either inline or from a helper
+// goroutine (a db / network worker); step number `fail` (1-based, 0 = none) reports failure.  Steps and
+// the final callback are pieces of A's code.
+func (w *world) wfall(n, steps, fail int, helper bool) string {
+	a := w.a
+	a.Post(func() {
+		defer a.m.enter("post")()
+		for i := 0; i < n; i++ {
+			var tasks []waterfall.Task
+			for k := 0; k < steps; k++ {
+				k := k
+				tasks = append(tasks, func(cb waterfall.Callback, args ...interface{}) {
+					defer a.m.enter("wstep")()
+					bad := k+1 == fail
+					if helper {
+						go func() {
+							time.Sleep(time.Microsecond)
+							cb(bad, k)
+						}()
+					} else {
+						cb(bad, k)
+					}
+				})
+			}
+			waterfall.Sche(a.GetRunService().GetScheduler(), tasks, func(err bool, args ...interface{}) {
+				defer a.m.enter("wfin")()
+			})
+		}
+	})
+	settle()
+	return "ok A:" + a.m.report() + " B:" + w.b.m.report()
+}
+
+// talk: ONE client connection of front-end A sends n messages back to back (up to 3000 within one virtual
+// millisecond); with kick, service code then kicks the connection (ClientSessions.Kick from A's goroutine:
+// kick handler, DoKick, Close of the connection); finally the connection closes.
+func (w *world) talk(n int, kick bool) string {
+	a := w.a
+	drained := make(chan struct{})
+	go func() {
+		fs := &fakeSession{m: a.m}
+		a.simpl.OnSessionCreate(fs)
+		time.Sleep(time.Millisecond)
+		for j := 0; j < n; j++ {
+			a.simpl.ProcessMessage(fs, &message.Message{Type: message.Request, ID: uint(j + 1), Route: "x.y.z", Data: []byte{1}})
+		}
+		if kick {
+			a.Post(func() {
+				defer a.m.enter("post")()
+				a.sessions.Kick(fs.GetId())
+			})
+		}
+		time.Sleep(time.Millisecond)
+		a.simpl.OnSessionClose(fs)
+		// a marker behind everything this connection queued (harness code, not a piece of A)
+		a.Post(func() { close(drained) })
+	}()
+	// a dwelling handler takes virtual time per message: wait for the marker, not for a fixed span
+	select {
+	case <-drained:
+	case <-time.After(30 * time.Second):
+	}
+	settle()
+	return "ok A:" + a.m.report() + " B:" + w.b.m.report()
+}
+
+// tcancel: A, inside one long piece, arms n one-shot timers, stays busy until they have expired (they wait
+// in A's timer queue), cancels them all, and is still inside the piece while B arms n timers of its own.
+// A cancelled timer never runs; B's timers run on B.
+func (w *world) tcancel(n int) string {
+	a, b := w.a, w.b
+	a.Post(func() {
+		defer a.m.enter("post")()
+		tm := a.GetRunService().GetTimerMgr()
+		var ids []timer.IdType
+		for j := 0; j < n; j++ {
+			ids = append(ids, tm.After(time.Millisecond, func(args ...interface{}) { defer a.m.enter("tmr")() }))
+		}
+		time.Sleep(2 * time.Millisecond)
+		for _, id := range ids {
+			tm.Cancel(id)
+		}
+		b.Post(func() {
+			defer b.m.enter("post")()
+			tmb := b.GetRunService().GetTimerMgr()
+			for j := 0; j < n; j++ {
+				tmb.After(time.Millisecond, func(args ...interface{}) { defer b.m.enter("tmr")() })
+			}
+		})
+		time.Sleep(500 * time.Microsecond)
+	})
+	settle()
+	return "ok A:" + a.m.report() + " B:" + b.m.report()
+}
+
+// crash: while B is inside a long piece, a message whose handling panics and q notifies queue up in its
+// mailbox: the supervisor restarts the actor (the producer runs again, on B's goroutine, in the middle of
+// the mailbox run), the q notifies are handled by the new incarnation; then posted closures, timers and q
+// more notifies for the new incarnation.  All of it is B's code: one goroutine, one piece at a time.
+func (w *world) crash(q, post, tmr int) string {
+	b := w.b
+	w.crashed = true
+	b.Post(func() {
+		defer b.m.enter("post")()
+		time.Sleep(time.Millisecond)
+	})
+	go func() {
+		w.sys.Root.Send(w.pb, &boom{})
+		for j := 0; j < q; j++ {
+			as.DirectSendNotify(w.sys.Root, w.pb, "c04.note", &messages.TestHello{I: int32(j)})
+		}
+	}()
+	settle()
+	b.m.mu.Lock()
+	nb := b.m.latest
+	b.m.mu.Unlock()
+	if nb != nil && nb != b {
+		nb.peer = b.peer
+		w.b = nb
+	}
+	nb = w.b
+	fanout(2, post, func(j int) { nb.Post(func() { defer nb.m.enter("post")() }) })
+	if tmr > 0 {
+		nb.Post(func() {
+			defer nb.m.enter("post")()
+			tm := nb.GetRunService().GetTimerMgr()
+			for j := 0; j < tmr; j++ {
+				tm.After(time.Duration(j%3)*time.Millisecond, func(args ...interface{}) { defer nb.m.enter("tmr")() })
+			}
+		})
+	}
+	fanout(1, q, func(j int) { as.DirectSendNotify(w.sys.Root, w.pb, "c04.note", &messages.TestHello{I: int32(j)}) })
+	settle()
+	time.Sleep(10 * time.Millisecond)
+	settle()
+	return "ok A:" + w.a.m.report() + " B:" + nb.m.report()
+}
+
 // settle waits until the work that is under way has drained: synctest.Wait returns when every goroutine
 // is blocked, and a handler dwelling in a (virtual) 1 µs sleep counts as blocked, so virtual time is let
 // pass and quiescence is awaited again
@@ -812,7 +1036,7 @@ func (w *world) stop(fromLoop bool, q, k int) string {
 	a := w.a
 	var conns []*fakeSession
 	for i := 0; i < k; i++ {
-		fs := &fakeSession{}
+		fs := &fakeSession{m: a.m}
 		conns = append(conns, fs)
 		go a.simpl.OnSessionCreate(fs)
 	}
@@ -926,6 +1150,9 @@ var malformed = []string{"burst", "burst p=0 post=1 " + z13 + " tmo=0 sfl=0 ses=
 	"flood who=owner n=901", "flood who=foreign n=0", "flood who=x n=5", "selfreq how=later n=3", "selfreq how=sync n=201", "selfreq how=sync", "stop who=me q=1 ses=1", "stop who=loop q=1", "stop who=foreign q=401 ses=0",
 	"burst p=2 post=1 " + z13 + " tmo=0 sfl=0 ses=0 msg=0 slow=11 z=0 sib=0 own=0 dw=spin",
 	"burst p=2 post=1 " + z13 + " tmo=0 sfl=0 ses=0 msg=0 dw=spin",
+	"wfall n=0 steps=1 fail=0 by=loop", "wfall n=3 steps=2 fail=3 by=loop", "wfall n=3 steps=5 fail=0 by=helper", "wfall n=3 steps=2 fail=1 by=me", "wfall n=3 steps=2 fail=1",
+	"talk n=0 kick=0", "talk n=3001 kick=0", "talk n=5 kick=2", "talk n=5", "tcancel n=0", "tcancel n=51", "tcancel", "crash q=41 post=0 tmr=0", "crash q=1 post=101 tmr=0",
+	"crash q=1 post=1 tmr=21", "crash q=1 post=1",
 	"burst p=2 post=1", "reset now", "frobnicate", "burst p=2 post=401 " + z13 + " tmo=0 sfl=0 ses=0 msg=0 slow=0 z=0 sib=0 own=0 dw=spin"}
 
 func TestRun(t *testing.T) {
@@ -988,7 +1215,37 @@ func TestRun(t *testing.T) {
 			}
 			k := 1 + h.R.Intn(5)
 			for i := 0; i < k; i++ {
-				switch x := h.R.Intn(50); {
+				switch x := h.R.Intn(63); {
+				case x >= 50 && x < 55:
+					by := []string{"helper", "helper", "loop"}[h.R.Intn(3)]
+					steps := 1 + h.R.Intn(4)
+					fail := h.R.Intn(steps + 1)
+					h.Count("op.wfall." + by)
+					if fail > 0 {
+						h.Count("op.wfall.step-fails")
+					}
+					run(fmt.Sprintf("wfall n=%d steps=%d fail=%d by=%s", 1+h.R.Intn(12), steps, fail, by))
+					done++
+					continue
+				case x >= 55 && x < 58:
+					n := []int{1, 40, 499, 500, 501, 640, 1200, 3000}[h.R.Intn(8)]
+					h.Count("op.talk")
+					if n > 500 {
+						h.Count("op.talk.over-500-messages")
+					}
+					run(fmt.Sprintf("talk n=%d kick=%d", n, h.R.Intn(2)))
+					done++
+					continue
+				case x >= 58 && x < 61:
+					h.Count("op.tcancel")
+					run(fmt.Sprintf("tcancel n=%d", []int{1, 2, 8, 30, 50}[h.R.Intn(5)]))
+					done++
+					continue
+				case x >= 61:
+					h.Count("op.crash") // a second one in the same case is rejected by both sides
+					run(fmt.Sprintf("crash q=%d post=%d tmr=%d", []int{0, 1, 3, 20}[h.R.Intn(4)], []int{0, 5, 60}[h.R.Intn(3)], []int{0, 2, 12}[h.R.Intn(3)]))
+					done++
+					continue
 				case x < 2:
 					h.Count("op.malformed")
 					run(malformed[h.R.Intn(len(malformed))])
